@@ -125,13 +125,14 @@ def shrink(mod, fail, budget_s):
     return best
 
 
-def save_replay(prop_id, fail, seed, tier):
+def save_replay(prop_id, fail, seed, tier, original=None):
     os.makedirs(REPLAY_DIR, exist_ok=True)
     name = '%s-%s.json' % (prop_id, case_hash([fail['clause'], fail['case']]))
     path = os.path.join(REPLAY_DIR, name)
     with open(path, 'w') as f:
         json.dump({'property': prop_id, 'clause': fail['clause'], 'sig': fail['sig'],
-                   'detail': fail['detail'], 'seed': seed, 'tier': tier, 'case': fail['case']},
+                   'detail': fail['detail'], 'seed': seed, 'tier': tier, 'case': fail['case'],
+                   'unshrunk_case': original['case'] if original is not None and original['case'] != fail['case'] else None},
                   f, indent=1, sort_keys=True, default=str)
         f.write('\n')
     return os.path.relpath(path, env.VERIF_DIR) if OUT_DIR == env.VERIF_DIR else path
@@ -273,7 +274,7 @@ def run_check(prop_id, tier, seed, workers=None, replay=None):
         # a shrunk case may have drifted into a known finding: keep the unshrunk one then
         if any(matches_known(e, shrunk) for e in known):
             shrunk = smallest
-        path = save_replay(prop_id, shrunk, seed, tier)
+        path = save_replay(prop_id, shrunk, seed, tier, smallest)
         print('violation: clause=%s sig=%s cases=%d\n  %s' % (clause, shrunk['sig'], len(fs),
                                                               shrunk['detail'][:1500].replace('\n', '\n  ')))
         violation_lines.append('VIOLATION property=%s replay=%s' % (prop_id, path))
